@@ -3,7 +3,7 @@ C01 — stage 3c/4: property / instance / class round trips (one level, generic 
 parser), then the mutual structural induction over Atom / List Atom / Val / Prop_ / List Prop_ / Inst / Cls
 that ties embedded objects off at any nesting depth.
 -/
-import Proofs.Lemmas.CimXml5
+import Proofs.Lemmas.CimXml14
 
 set_option linter.unusedSimpArgs false
 set_option linter.unusedVariables false
@@ -331,14 +331,24 @@ include hC in
 theorem step_einst (i : Inst) (d : Nat) (hok : S.embInstOk i)
     (hrec : decInstance C (embAt C d) (encInstElem C.toCodec i) = .ok (wdInstNoPath C.toCodec i)) :
     embAt C (d + 1) (atomText C.toCodec (.einst i)) = .ok (wdAtom C.toCodec (.einst i)) := by
-  simp only [atomText, embAt, hC.par_inst i hok, if_pos (encInstElem_name C i), hrec, bind_ok, pure_eq_ok, wdAtom]
+  obtain ⟨t', hpar, hnorm⟩ := hC.par_inst i hok
+  have hname : t'.name = "INSTANCE".toList := by
+    rw [← normTree_name t', hnorm, normTree_name, encInstElem_name]
+  have hdec : decInstance C (embAt C d) t' = .ok (wdInstNoPath C.toCodec i) := by
+    rw [← decInstance_norm C (embAt C d) t', hnorm, decInstance_norm, hrec]
+  simp only [atomText, embAt, hpar, if_pos hname, hdec, bind_ok, pure_eq_ok, wdAtom]
 
 include hC in
 theorem step_ecls (c : Cls) (d : Nat) (hok : S.embClsOk c)
     (hrec : decClass C (embAt C d) (encCls C.toCodec c) = .ok (wdCls C.toCodec c)) :
     embAt C (d + 1) (atomText C.toCodec (.ecls c)) = .ok (wdAtom C.toCodec (.ecls c)) := by
-  have h1 : ¬ (encCls C.toCodec c).name = "INSTANCE".toList := by rw [encCls_name]; decide
-  simp only [atomText, embAt, hC.par_cls c hok, if_neg h1, if_pos (encCls_name C c), hrec, bind_ok, pure_eq_ok, wdAtom]
+  obtain ⟨t', hpar, hnorm⟩ := hC.par_cls c hok
+  have hname : t'.name = "CLASS".toList := by
+    rw [← normTree_name t', hnorm, normTree_name, encCls_name]
+  have h1 : ¬ t'.name = "INSTANCE".toList := by rw [hname]; decide
+  have hdec : decClass C (embAt C d) t' = .ok (wdCls C.toCodec c) := by
+    rw [← decClass_norm C (embAt C d) t', hnorm, decClass_norm, hrec]
+  simp only [atomText, embAt, hpar, if_neg h1, if_pos hname, hdec, bind_ok, pure_eq_ok, wdAtom]
 
 theorem embItems_cons_null (l : List Atom) :
     embItems emb (.null :: l) = (do let r ← embItems emb l; pure (.null :: r)) := rfl
